@@ -17,6 +17,7 @@ M_ST_REL = ("MC_StunClient.tla", "MC_StunClient_st_rel.cfg", ("SendRequest", "Re
 M_LT = ("MC_CredLT.tla", "MC_CredLT.cfg", ("Send", "Next"))
 M_LT_RFC = ("MC_CredLT.tla", "MC_CredLT_rfc.cfg", ("Send", "Next"))
 MODELS = {
+    "C03": [M_ST_REL, M_LT],
     "C05": [M_REL, M_UNREL, M_ST_REL],
     "C06": [M_REL, M_UNREL],
     "C07": [M_ST_REL, M_ST],
@@ -31,6 +32,8 @@ MODELS = {
 
 # property -> list of (profile, traces, steps) per tier
 PLANS = {
+    "C03": {"quick": [("sweep:14:3", 0, 0), ("hostile", 400, 60)],
+            "thorough": [("sweep:40:11", 0, 0), ("hostile", 20000, 80)]},
     "C05": {"quick": [("mixed", 250, 60), ("nomech", 120, 60), ("st", 120, 60)],
             "thorough": [("mixed", 4000, 80), ("nomech", 1500, 80), ("st", 1500, 80), ("lt", 1500, 80)]},
     "C06": {"quick": [("sched", 300, 50), ("mixed", 100, 60)],
@@ -58,7 +61,12 @@ LEVEL_NOTE = {
 
 
 def record(bindir, wd, profile, seed, traces, steps):
-    out = os.path.join(wd, "rec-%s" % profile)
+    out = os.path.join(wd, "rec-%s" % profile.replace(":", "-"))
+    if profile.startswith("sweep"):
+        _, maxoff, nstr = profile.split(":")
+        rc, o = sh("%s/drive-client sweep --max-off %s --strings %s --out %s" % (bindir, maxoff, nstr, out),
+                   timeout=3000)
+        return out, json.loads(o.strip().splitlines()[-1])
     rc, o = sh("%s/drive-client walk --profile %s --seed %d --traces %d --steps %d --out %s"
                % (bindir, profile, seed, traces, steps, out), timeout=1800)
     stats = json.loads(o.strip().splitlines()[-1])
@@ -194,7 +202,8 @@ def run(prop, tier, seed, replay=None, extra_cov=None):
     samples = []
     for recdir, stats in recs:
         tracefile = os.path.join(recdir, "trace.ndjson")
-        bad, consumed, total, out = tlc_trace("TraceClient.tla", "TraceClient.cfg", tracefile, wd)
+        bad, consumed, total, out = tlc_trace("TraceClient.tla", "TraceClient.cfg", tracefile, wd,
+                                             timeout=3000, heap="12g")
         traces = split_traces(tracefile)
         total_traces += len(traces)
         total_lines += total
